@@ -24,8 +24,27 @@ def gen_glue(bdir):
         raise BuildError("harness glue generation failed (headers no longer have the expected shape): " + out[-500:])
 
 
+def regen_type_sizes():
+    """translator tie: lean/Iec/Gen/TypeSizes.lean is regenerated from the current cs101_information_objects.c;
+    Iec.Props.C02.source_sizes_match_table then proves the extracted constants are the model's table"""
+    dst = os.path.join(LEAN, "Iec", "Gen", "TypeSizes.lean")
+    tmp = dst + ".new"
+    rc, out = sh(["python3", os.path.join(ROOT, "translate", "type_sizes.py"), SRC, tmp])
+    if rc != 0:
+        raise BuildError("translate/type_sizes.py: the encoders / decoders of cs101_information_objects.c no longer have the shapes it extracts from: " + out[-500:])
+    new = open(tmp).read()
+    if not os.path.exists(dst) or open(dst).read() != new:
+        os.replace(tmp, dst)
+    else:
+        os.remove(tmp)
+
+
 def run(res, pid):
     bdir = os.path.join(BUILD, pid)
+    try:
+        regen_type_sizes()
+    except BuildError as e:
+        res.violation("tie-or-proof-broken", str(e)[:900], {"no_longer_checks": ["translate/type_sizes.py -> lean/Iec/Gen/TypeSizes.lean"]}, found_input=False)
     proof_ok, plog = proof_stage(res, pid)
     tie_ok, diffs, n_ops, histo, lib = True, [], 0, "", None
     crash = None
